@@ -219,7 +219,8 @@ impl StateMachine<'_> {
                     &self.raw_line,
                     self.config.grep_match_word_style,
                     self.config.grep_match_line_style,
-                    &grep_line.path,
+                    // The prefix is measured in the tab-expanded line, so a tab in the path counts expanded too
+                    &tabs::expand(&grep_line.path, &self.config.tab_cfg),
                     grep_line.line_number,
                 )
                 .unwrap_or(StyleSectionSpecifier::Style(
@@ -360,7 +361,8 @@ impl StateMachine<'_> {
                     &self.raw_line,
                     self.config.grep_match_word_style,
                     self.config.grep_match_line_style,
-                    &grep_line.path,
+                    // The prefix is measured in the tab-expanded line, so a tab in the path counts expanded too
+                    &tabs::expand(&grep_line.path, &self.config.tab_cfg),
                     grep_line.line_number,
                 )
                 .unwrap_or(StyleSectionSpecifier::Style(
